@@ -129,6 +129,18 @@ class Adapter:
                     joint[int(i)] = int(idx[int(rng.integers(0, len(idx)))])
                 acts.append(joint)
                 which.append([int(i) for i in rows])
+            # the same illegal actions while the *other* agents make legal moves of their own (two random legal
+            # backgrounds): an ignored action must stay ignored whatever the others do in the same step
+            pairs = np.argwhere(bad)
+            if len(pairs) and lo.any(axis=1).all():
+                for _ in range(2):
+                    bg = [int(rng.choice(np.flatnonzero(lo[j]))) for j in range(lo.shape[0])]
+                    sel = pairs if len(pairs) <= 64 else pairs[np.sort(rng.choice(len(pairs), size=64, replace=False))]
+                    for i, a in sel:
+                        joint = list(bg)
+                        joint[int(i)] = int(a)
+                        acts.append(joint)
+                        which.append([int(i)])
             return acts, which, True
         idx = np.argwhere(bad)
         complete = True
